@@ -19,6 +19,12 @@ def stateful_program(rng):
          "class Box<T> { public T v; public static int made = 0; public constructor(T v) -> Box<T> { this.v = v; made = made + 1; return this; }",
          "    public function count() -> int { return made; }",
          "    public static function of(T v) -> Box<T> { return new Box<T>(v); } }",
+         # statics whose initialisers have side effects or depend on other statics (final and not, scalar and object, generic self-reference)
+         "class Ticket { public static int issued = 0; public static function next() -> int { issued = issued + 1; return issued; } public constructor() -> Ticket = default; }",
+         "class Session { public static final int id = Ticket.next(); public static int second = Ticket.next() + %d; public static final string tag = \"s\" + Ticket.next();" % k,
+         "    public static final float fz = 0.5f + Ticket.issued; public static Ticket owner = new Ticket(); public constructor() -> Session = default; }",
+         "class Chain<T> { public static int made = 0; public static Chain<T> empty = new Chain<T>(); public Chain<T> next; public constructor() -> Chain<T> { made = made + 1; next = null; return this; }",
+         "    public function isEmpty() -> boolean { return this == empty; } public function count() -> int { return made; } }",
          "class A { public int x = %d; public constructor() -> A = default; }" % n,
          "class B extends A { public int y = %d; public constructor() -> B = default; }" % k,
          "class Solo { public int s = 9; public constructor() -> Solo = default; }",
@@ -28,6 +34,8 @@ def stateful_program(rng):
          "function main() -> void {",
          "    final int n = %d;" % (n + 2),
          "    final int m2 = %d; int[n] arr; int[m2] arr2; bit[n] flags;" % (k + 1),
+         "    echo(\"session \" + Session.id + \" \" + Session.second + \" \" + Session.tag + \" \" + Session.fz + \" issued \" + Ticket.issued);",
+         "    Chain<int> cn = new Chain<int>(); echo(cn.isEmpty()); echo(cn.count()); Chain<A> ca = new Chain<A>(); echo(ca.count());",
          "    echo(Counter.hit()); echo(Counter.hit()); echo(Counter.hist[1]);",
          "    if (Counter.hits == 2) { echo(\"two\"); } else { echo(\"not two\"); }",
          "    Box<A> ba = new Box<A>(new A()); Box<B> bb = new Box<B>(new B()); Box<B> bc = new Box<>(new B());",
@@ -76,6 +84,7 @@ def run(chk):
         lines.append("shots %s 01 %d %s" % (evallib.hx(src), n, ds))
     impl, incident = run_guarded(evallib.harness(), lines, chunk_timeout=240)
     kinds = {}
+    rejected = {}
     bad = None
     progs2 = [p for p in progs for _ in (0, 1)]
     for (src, kind), ln, a in zip(progs2, lines, impl):
@@ -84,6 +93,7 @@ def run(chk):
         if a.startswith("same "):
             continue
         if a.startswith(("err Semantic", "err Parse", "err Lexical")):
+            rejected[kind] = rejected.get(kind, 0) + 1
             continue
         if bad is None:
             shared, _, fresh = a.partition(" ## ")
@@ -91,6 +101,7 @@ def run(chk):
             k = next((i for i, (x, y) in enumerate(zip(sh, fr)) if x.replace("DIFFERENT ", "") != y), 0)
             bad = (src, kind, ln, k, sh[k][:300] if k < len(sh) else "", fr[k][:300] if k < len(fr) else "", a[:80])
     chk.extra["input_distribution"] = kinds
+    chk.extra["rejected_by_front_end"] = rejected
     chk.extra["harness_incident"] = str(incident)[:600] if incident else ""
     chk.sample({"kind": progs[0][1], "program": progs[0][0][:400]})
     if bad:
